@@ -263,8 +263,12 @@ pub fn run_case(case: &Arc<Case>, ctx: &Arc<ExecCtx>) -> RunInfo {
             verif::TraceEvent::TimeWritten(s, n) => TraceEv::TimeWritten(s, n),
             verif::TraceEvent::TimeoutFired => TraceEv::TimeoutFired,
         };
+        if matches!(te, TraceEv::TimeoutFired) {
+            tctx.timeout_seen.store(true, Ordering::SeqCst);
+        }
         tctx.log(Ev::Trace(te));
     }));
+    ctx.timeout_armed.store(case.cfg.timeout_set && !case.cfg.timeout_late, Ordering::SeqCst);
     verif::install(hooks);
     ctx.wake_on_drop.store(case.cfg.wake_on_drop, Ordering::SeqCst);
 
@@ -278,6 +282,11 @@ pub fn run_case(case: &Arc<Case>, ctx: &Arc<ExecCtx>) -> RunInfo {
         Ok((s, sch)) => {
             let nd = s.verif_next_deadline().map(tt);
             ctx.log(Ev::CmdEnd { idx: 0, res: Res::Ok, time: tt(s.time()), next_deadline: nd });
+            let mut s = s;
+            if case.cfg.timeout_set && case.cfg.timeout_late {
+                s.set_timeout(Duration::from_secs(3600));
+                ctx.timeout_armed.store(true, Ordering::SeqCst);
+            }
             (Some(s), Some(sch))
         }
         Err(r) => {
